@@ -8,6 +8,9 @@ package operations
 //@ define opsIdle(o ref) bool = !driveHeld && !mutexHeld[addr(o.diskOperationLock)]
 
 //@ func (*Operations).Delete
+//@   property C12
+//@   at call append#2 assert [children-from-subtree-query] subtreeQueries == old(subtreeQueries) + 1
+//@   at call SignHeader#1 assert [delete-record-names] hdr.Name == dbhdr.Name && hdr.PAXRecords["STFS.Action"] == "DELETE" && hdr.Size == 0
 //@   property C17
 //@   at call SignHeader#1 assert [pax-format] arg_hdr.Format == 4
 //@   property C02
@@ -20,11 +23,15 @@ package operations
 //@   property C10 also C11
 //@   safety C10
 //@   requires o != nil && opsReady(o) && opsIdle(o)
-//@   modifies *, driveHeld, mutexHeld[addr(o.diskOperationLock)], tapeWrites, indexWrites, ghosts(C04), ghosts(C08), ghosts(C09), ghosts(C05), ghosts(C14), ghosts(C07), opDeletes
+//@   modifies *, driveHeld, mutexHeld[addr(o.diskOperationLock)], tapeWrites, indexWrites, ghosts(C04), ghosts(C08), ghosts(C09), ghosts(C05), ghosts(C14), ghosts(C07), ghosts(C12), opDeletes
 //@   ensures [drive-free] !driveHeld
 //@   ensures [ops-free] !mutexHeld[addr(o.diskOperationLock)]
 
 //@ func (*Operations).Move
+//@   property C12
+//@   at call Join#1 assert [newname-formula] arg_elem[0] == to && arg_elem[1] == trimPrefix(trimPrefix(dbhdr.Name, "/"), trimPrefix(from, "/"))
+//@   at call append#2 assert [children-from-subtree-query] subtreeQueries == old(subtreeQueries) + 1
+//@   at call SignHeader#1 assert [move-record-names] hdr.PAXRecords["STFS.ReplacesName"] == dbhdr.Name && hdr.PAXRecords["STFS.Action"] == "UPDATE" && hdr.Size == 0
 //@   property C17
 //@   at call SignHeader#1 assert [pax-format] arg_hdr.Format == 4
 //@   property C02
@@ -37,7 +44,7 @@ package operations
 //@   property C10 also C11
 //@   safety C10
 //@   requires o != nil && opsReady(o) && opsIdle(o)
-//@   modifies *, driveHeld, mutexHeld[addr(o.diskOperationLock)], tapeWrites, indexWrites, ghosts(C04), ghosts(C08), ghosts(C09), ghosts(C05), ghosts(C14), ghosts(C07), opMoves
+//@   modifies *, driveHeld, mutexHeld[addr(o.diskOperationLock)], tapeWrites, indexWrites, ghosts(C04), ghosts(C08), ghosts(C09), ghosts(C05), ghosts(C14), ghosts(C07), ghosts(C12), opMoves
 //@   ensures [drive-free] !driveHeld
 //@   ensures [ops-free] !mutexHeld[addr(o.diskOperationLock)]
 
@@ -47,7 +54,7 @@ package operations
 //@   property C10 also C11
 //@   safety C10
 //@   requires o != nil && opsReady(o) && opsIdle(o)
-//@   modifies *, driveHeld, mutexHeld[addr(o.diskOperationLock)], ghosts(C04), ghosts(C08), ghosts(C09), ghosts(C05), ghosts(C14), ghosts(C07)
+//@   modifies *, driveHeld, mutexHeld[addr(o.diskOperationLock)], ghosts(C04), ghosts(C08), ghosts(C09), ghosts(C05), ghosts(C14), ghosts(C07), ghosts(C12)
 //@   ensures [drive-free] !driveHeld
 //@   ensures [ops-free] !mutexHeld[addr(o.diskOperationLock)]
 
@@ -55,7 +62,7 @@ package operations
 //@   property C10 also C11
 //@   safety C10
 //@   requires o != nil && opsReady(o) && opsIdle(o) && getSrc != nil
-//@   modifies *, driveHeld, mutexHeld[addr(o.diskOperationLock)], tapeWrites, indexWrites, ghosts(C04), ghosts(C08), ghosts(C09), ghosts(C05), ghosts(C14), ghosts(C07)
+//@   modifies *, driveHeld, mutexHeld[addr(o.diskOperationLock)], tapeWrites, indexWrites, ghosts(C04), ghosts(C08), ghosts(C09), ghosts(C05), ghosts(C14), ghosts(C07), ghosts(C12)
 //@   ensures [drive-free] !driveHeld
 //@   ensures [ops-free] !mutexHeld[addr(o.diskOperationLock)]
 
@@ -75,7 +82,7 @@ package operations
 //@   property C10 also C11
 //@   safety C10
 //@   requires o != nil && opsReady(o) && !driveHeld && getSrc != nil
-//@   modifies *, driveHeld, tapeWrites, indexWrites, ghosts(C04), ghosts(C08), ghosts(C09), ghosts(C05), ghosts(C14), ghosts(C07)
+//@   modifies *, driveHeld, tapeWrites, indexWrites, ghosts(C04), ghosts(C08), ghosts(C09), ghosts(C05), ghosts(C14), ghosts(C07), ghosts(C12)
 //@   ensures [drive-free] !driveHeld
 
 //@ func (*Operations).Update
@@ -97,7 +104,7 @@ package operations
 //@   property C10 also C11
 //@   safety C10
 //@   requires o != nil && opsReady(o) && opsIdle(o) && getSrc != nil
-//@   modifies *, driveHeld, mutexHeld[addr(o.diskOperationLock)], tapeWrites, indexWrites, ghosts(C04), ghosts(C08), ghosts(C09), ghosts(C05), ghosts(C14), ghosts(C07)
+//@   modifies *, driveHeld, mutexHeld[addr(o.diskOperationLock)], tapeWrites, indexWrites, ghosts(C04), ghosts(C08), ghosts(C09), ghosts(C05), ghosts(C14), ghosts(C07), ghosts(C12)
 //@   ensures [drive-free] !driveHeld
 //@   ensures [ops-free] !mutexHeld[addr(o.diskOperationLock)]
 
@@ -105,7 +112,7 @@ package operations
 //@   property C10 also C11
 //@   safety C10
 //@   requires o != nil && opsReady(o) && opsIdle(o)
-//@   modifies *, driveHeld, mutexHeld[addr(o.diskOperationLock)], tapeWrites, indexWrites, ghosts(C04), ghosts(C08), ghosts(C09), ghosts(C05), ghosts(C14), ghosts(C07)
+//@   modifies *, driveHeld, mutexHeld[addr(o.diskOperationLock)], tapeWrites, indexWrites, ghosts(C04), ghosts(C08), ghosts(C09), ghosts(C05), ghosts(C14), ghosts(C07), ghosts(C12)
 //@   ensures [drive-free] !driveHeld
 //@   ensures [ops-free] !mutexHeld[addr(o.diskOperationLock)]
 
